@@ -192,3 +192,40 @@ Proof.
     rewrite E in EL. destruct L; [reflexivity|discriminate EL]. }
   subst L. rewrite RL, prepend_nil. reflexivity.
 Qed.
+
+(* ---- union targets ---------------------------------------------------------------------------------- *)
+Lemma ends_plainly_app : forall pre x, ends_plainly x -> ends_plainly (pre ++ x).
+Proof. intros pre x (y & c & -> & H1 & H2). exists (pre ++ y), c. rewrite app_assoc. auto. Qed.
+
+(* a union without trailing filters ends with a name character, "*" or ".": nothing is stripped, no
+   closing check is installed *)
+Theorem split_filter_union_proof : forall alts steps,
+  Forall (fun s => nt_ok (snd s)) steps ->
+  split_filter (render_alts alts ++ render_steps steps) = Some (render_alts alts ++ render_steps steps, false).
+Proof.
+  intros alts steps Hs.
+  unfold split_filter, remove_trailing_filters.
+  pose proof (rtf_filters [] (S (S (length (render_alts alts ++ render_steps steps))))
+                (render_alts alts ++ render_steps steps)
+                (ends_plainly_app _ _ (render_steps_ends _ Hs)) (Forall_nil _)) as H.
+  cbn [render_filters flat_map length] in H. rewrite app_nil_r in H.
+  rewrite H by lia. rewrite bytes_eqb_refl. reflexivity.
+Qed.
+
+Theorem xml_stream_eq_select_union_proof : forall alts tg content rel,
+  pm_union alts tg [] = false ->
+  exists L, xrun (pm_union alts tg) ptrue false false x_init rel (xdoc_events content) = (L, FEOF) /\
+            map fst L = whole_doc_selection (pm_union alts tg) ptrue (xdoc_tree content).
+Proof.
+  intros alts tg content rel H.
+  apply (xml_stream_eq_select_proof (pm_union alts tg) ptrue false (fun _ _ => eq_refl) H).
+Qed.
+
+Theorem json_stream_eq_select_union_proof : forall alts tg j rel,
+  jwf j = true ->
+  exists L, jrun (pm_union alts tg) ptrue false false j_init rel (jdoc_events j) = (L, FEOF) /\
+            map fst L = whole_doc_selection (pm_union alts tg) ptrue (jdoc_tree j).
+Proof.
+  intros alts tg j rel H.
+  apply (json_stream_eq_select_proof (pm_union alts tg) ptrue false (fun _ _ => eq_refl) j rel H).
+Qed.
